@@ -38,4 +38,12 @@ PROPS = {
         "assumptions": ["equality of derived types is equality of the model value text (skipped fields excluded)"],
         "also_oracles": [],
     },
+    "C14": {
+        "streams": ["cut", "concat", "decall", "big"],
+        "rule": "every cut point (all for encodings <=48 bytes, head/tail plus a sample beyond) of generated encodings of every catalogue type (oracle: must fail); heterogeneous concatenations of 2..50 encoded values of mixed catalogue types decoded value by value (oracle: each value recovered, exact consumption); decode_all / decode_all_with_depth_limit(64) vs decode on valid, suffixed, mutated and double encodings (oracle: ok iff decode ok with nothing left). non-trivial = distinct request whose model answer is not `err`",
+        "level_text": "Proved in Lean: (generic over every decoder program) a successful decode consumes a prefix and is unaffected by following bytes; hence with the C02 round trip: decoding any strict prefix of an encoding fails with an error (never a panic), a concatenation of encodings of arbitrary mixed types decodes value by value leaving the rest, decode_all / decode_all_with_depth_limit succeed iff decode succeeds with empty remainder (same value), and decode_all rejects any trailing bytes. Tied to the crate by the cut/concat/decall streams and the implementation-side oracles.",
+        "level_note": "Trusted: as C02 (same hypotheses wf/canon/layoutOk, plus widthsOk: Compact<_> nodes have one of the crate's five widths).",
+        "trusted_base": COMMON_TB,
+        "assumptions": ["as C02"],
+    },
 }
